@@ -106,7 +106,7 @@ def expander(pid, tier, types):
 
 CL = {
     "C04": {("C04", "never_panics"), ("C04", "well_formed"), ("C04", "equals_reference"), ("C04", "encodable_value_rejected"),
-            ("C04", "earlier_output_intact")},
+            ("C04", "earlier_output_intact"), ("C04", "concurrent_calls_agree")},
     "C05": {("C05", "decode_never_panics"), ("C05", "decode_succeeds"), ("C05", "round_trip"), ("C05", "unsupported_is_error")},
     "C16": {("C16", "never_panics"), ("C16", "malformed_is_error")},
 }
@@ -151,6 +151,9 @@ def check(pid, tier, replay=None):
             for j, (tn, leaf) in enumerate([("CHFRecord", "small"), ("ChargingRecord", "small")] + ([("CHFRecord", "boundary")] if tier != "quick" else [])):
                 for k in range(16):
                     behs.insert((k * 331 + j * 17) % max(1, len(behs)), dict(id="%s-paths%d.%d" % (pid, j, k), mode="schema", type=tn, leaf=leaf, present="paths", only=k, seed=seed_of(j), params="", n=0))
+        if pid in ("C04", "C05"):
+            # the same values marshalled and decoded from many tasks at once, in fresh processes
+            behs.append(dict(id="%s-hot" % pid, mode="hot", type="", params="", seed=core.seed(), n=3 if tier == "quick" else 20))
         if pid == "C16":
             # size-only inputs (1.5 M repeated / 1.2 M nested constructed headers), each decode in a child process
             behs.append(dict(id="C16-deep", mode="deep", type="", params="", seed=0, n=1500000))
